@@ -6,7 +6,7 @@ use crate::meta::verif_header::{any_geo, fmt_stub, info_of};
 use crate::verif_spec as spec;
 
 // @harness c15_host_cluster
-// @props C15 C08 C03
+// @props C15 C08 C03 C02
 // @tier quick
 // @timeout 600
 // @desc every method of HostCluster on the geometry derived by the real Qcow2Info::new: rt_index / rb_index equal the spec's refcount index formulas; slice key / index / byte offset are quotient / remainder by the slice length; the slice host range is [start, start + slice_entries*cluster_size), aligned, contains the cluster, lies inside the refblock's host range; cluster_off_from_slice is the inverse of rb_slice_index
